@@ -13,6 +13,7 @@ CONSTANTS
   AllowCtrlC = FALSE
   AllowError = FALSE
   AliveCheck = TRUE
+  NKinds = 1
 INVARIANT ProtocolOK
 INVARIANT ClosedAtEnd
 INVARIANT NoProblemLost
